@@ -2,7 +2,7 @@ package main
 
 // sub-harness `config` (C15): configuration sources merge in loader order; adding a source drops nothing.
 //
-//	scenario := opt* "|" path*
+//	scenario := ["CF"] opt* ("IN" opt*)* "|" path*
 //	opt      := "SL" n loader^n   app.SetConfigLoader(…)        | "AL" n loader^n   app.AddConfigLoader(…)
 //	          | "CA" n loader^n   option calling s.Configure.AddLoaders(…)
 //	          | "SC" n loader^n   app.SetConfigure(fresh configure holding the loaders)
@@ -15,9 +15,22 @@ package main
 //	node     := "M" n (keyhex node)^n | "L" n node^n | "P"hex (plain scalar) | "Q"hex (quoted string) | "N" (null)
 //	path     := hex of the dotted path, `-` = ""
 //
-// observation: `err` | `panic` | per path  nil | s:<hex of %v> | list[n](e,…) | map{hexkey,…}
+// observation: one phase per Initialize, joined by " / ", ending at the first `err` / `panic`;
+// phase := `err` | `panic` | per path  nil | s:<hex of %v> | list[n](e,…) | map{hexkey,…}
 //
 // Real code: app.NewApp().Run(app.LogLevel(syslog.LvPanic), options…), then App.Get(path).
+//
+// Several Initialize calls on ONE live App / Configure (`IN` = "Initialize now", tag `multi-init`): the options before
+// the first `IN` are the arguments of Run (which initialises the configuration); every later batch is applied to the
+// same running App through the public API (`opt(app)`: app.SetConfig / AddConfigLoader / SetConfigLoader /
+// SetConfigure, app.Configure.AddLoaders) and followed by `app.Initialize()` (App embeds its Configure); every path is
+// read after every Initialize.  With a leading `CF` the same history runs on a bare configure.NewConfigure() with a
+// ViperBinder (no default ArgsLoader): SL = SetLoaders, AL / CA = AddLoaders, SF = AddLoaders(loader.NewFileLoader(path)).
+// The property is evaluated after every Initialize on the loader list configured at that moment (signatures
+// `reinit-…` from the second Initialize on): every configured source is consulted, for a key supplied by several
+// configured sources the last one in loader sequence wins, a key supplied by a configured source is never missing.
+// About a key that only a source REMOVED by a later set-type call supplied (the binder has no reset) the property
+// says nothing and the oracle demands nothing; a key no source ever supplied shows nothing.
 // The container's default ArgsLoader(os.Args) sees the harness's own command line, which never holds an
 // `--app.config` argument, so it contributes nothing (the model's defaultLoader).
 //
@@ -151,8 +164,8 @@ func (l *cloader) toks(out *[]string) {
 func cfgScn(opts []copt, paths []string) string {
 	var t []string
 	for _, o := range opts {
-		if o.op == "SF" {
-			t = append(t, "SF")
+		if o.op == "SF" || o.op == "IN" || o.op == "CF" {
+			t = append(t, o.op)
 		} else {
 			t = append(t, o.op, strconv.Itoa(len(o.ls)))
 		}
@@ -283,12 +296,20 @@ func cfgParse(scn string) ([]copt, []string, bool) {
 		}
 		o := copt{op: op}
 		switch op {
+		case "CF":
+			if len(opts) != 0 {
+				c.bad = true
+			}
+		case "IN":
 		case "SF":
 			o.ls = []*cloader{c.loader()}
 			if o.ls[0].kind != "f" || o.ls[0].ref == "=" {
 				c.bad = true
 			}
 		case "SL", "AL", "CA", "SC":
+			if op == "SC" && len(opts) > 0 && opts[0].op == "CF" {
+				c.bad = true // there is no App whose Configure could be replaced
+			}
 			for k := c.num(); k > 0 && !c.bad; k-- {
 				o.ls = append(o.ls, c.loader())
 			}
@@ -547,56 +568,127 @@ func canonKeys(keys []string) string {
 	return "map{" + strings.Join(keys, ",") + "}"
 }
 
+// cfgSplit: the batches of options between the `IN` marks (k marks → k+1 batches), and whether the line runs on a bare
+// Configure (`CF`) instead of an App
+func cfgSplit(opts []copt) (bare bool, phases [][]copt) {
+	phases = [][]copt{nil}
+	for _, o := range opts {
+		switch o.op {
+		case "CF":
+			bare = true
+		case "IN":
+			phases = append(phases, nil)
+		default:
+			phases[len(phases)-1] = append(phases[len(phases)-1], o)
+		}
+	}
+	return bare, phases
+}
+
+// one option of a line with its real loader values: as an App option and as a call on a bare Configure
+type cfgRealOpt struct {
+	app  app.SettingOption
+	bare func(c configure.Configure)
+}
+
 func cfgRun(env *cfgEnv, opts []copt, paths []string, tags []string, w *hx.Writer) {
 	c := hx.Case{Scn: cfgScn(opts, paths), Tags: tags}
 	env.objs, env.paths = map[int]configure.Loader{}, map[int]string{}
-	var sopts []app.SettingOption
-	for _, o := range opts {
-		var ls []configure.Loader
-		if o.op != "SF" {
-			for _, l := range o.ls {
-				ls = append(ls, env.realLoader(l))
+	bare, phases := cfgSplit(opts)
+	ropts := make([][]cfgRealOpt, len(phases))
+	for k, ph := range phases {
+		for _, o := range ph {
+			var ls []configure.Loader
+			if o.op != "SF" {
+				for _, l := range o.ls {
+					ls = append(ls, env.realLoader(l))
+				}
 			}
-		}
-		switch o.op {
-		case "SL":
-			sopts = append(sopts, app.SetConfigLoader(ls...))
-		case "AL":
-			sopts = append(sopts, app.AddConfigLoader(ls...))
-		case "CA":
-			sopts = append(sopts, func(s *app.App) { s.Configure.AddLoaders(ls...) })
-		case "SC":
-			cf := configure.NewConfigure()
-			cf.SetBinder(binder.NewViperBinder("yaml"))
-			cf.SetLoaders(ls...)
-			sopts = append(sopts, app.SetConfigure(cf))
-		case "SF":
-			p := env.filePath(o.ls[0])
-			env.objs[o.ls[0].id] = loader.NewFileLoader(p) // FileLoader is a string: the value SetConfig builds
-			sopts = append(sopts, app.SetConfig(p))
+			var ro cfgRealOpt
+			switch o.op {
+			case "SL":
+				ro.app = app.SetConfigLoader(ls...)
+				ro.bare = func(c configure.Configure) { c.SetLoaders(ls...) }
+			case "AL":
+				ro.app = app.AddConfigLoader(ls...)
+				ro.bare = func(c configure.Configure) { c.AddLoaders(ls...) }
+			case "CA":
+				ro.app = func(s *app.App) { s.Configure.AddLoaders(ls...) }
+				ro.bare = func(c configure.Configure) { c.AddLoaders(ls...) }
+			case "SC":
+				cf := configure.NewConfigure()
+				cf.SetBinder(binder.NewViperBinder("yaml"))
+				cf.SetLoaders(ls...)
+				ro.app = app.SetConfigure(cf)
+				ro.bare = func(c configure.Configure) {}
+			case "SF":
+				p := env.filePath(o.ls[0])
+				fl := loader.NewFileLoader(p) // FileLoader is a string: the value SetConfig builds
+				env.objs[o.ls[0].id] = fl
+				ro.app = app.SetConfig(p)
+				ro.bare = func(c configure.Configure) { c.AddLoaders(fl) }
+			}
+			ropts[k] = append(ropts[k], ro)
 		}
 	}
 	var a *app.App
-	var err error
-	got := make([]string, len(paths))
-	pan := hx.Guard(func() {
-		a = app.NewApp()
-		err = a.Run(append([]app.SettingOption{app.LogLevel(syslog.LvPanic)}, sopts...)...)
-		if err == nil {
-			for i, p := range paths {
-				got[i] = canonVal(a.Get(p))
+	var cf configure.Configure
+	var obs []string
+	var gots [][]string
+	panText := ""
+	for k := range phases {
+		var err error
+		got := make([]string, len(paths))
+		pan := hx.Guard(func() {
+			switch {
+			case bare:
+				if k == 0 {
+					cf = configure.NewConfigure()
+					cf.SetBinder(binder.NewViperBinder("yaml"))
+				}
+				for _, ro := range ropts[k] {
+					ro.bare(cf)
+				}
+				err = cf.Initialize()
+			case k == 0:
+				sopts := []app.SettingOption{app.LogLevel(syslog.LvPanic)}
+				for _, ro := range ropts[k] {
+					sopts = append(sopts, ro.app)
+				}
+				a = app.NewApp()
+				err = a.Run(sopts...)
+			default:
+				for _, ro := range ropts[k] {
+					ro.app(a)
+				}
+				err = a.Initialize()
 			}
+			if err == nil {
+				for i, p := range paths {
+					if bare {
+						got[i] = canonVal(cf.Get(p))
+					} else {
+						got[i] = canonVal(a.Get(p))
+					}
+				}
+			}
+		})
+		gots = append(gots, got)
+		switch {
+		case pan != nil:
+			obs = append(obs, "panic")
+			panText = fmt.Sprint(pan)
+		case err != nil:
+			obs = append(obs, "err")
+		default:
+			obs = append(obs, strings.Join(got, " "))
 		}
-	})
-	switch {
-	case pan != nil:
-		c.Obs = "panic"
-	case err != nil:
-		c.Obs = "err"
-	default:
-		c.Obs = strings.Join(got, " ")
+		if pan != nil || err != nil {
+			break
+		}
 	}
-	c.Oracle = cfgOracle(opts, paths, got, c.Obs, fmt.Sprint(pan))
+	c.Obs = strings.Join(obs, " / ")
+	c.Oracle = cfgOracle(opts, paths, gots, obs, panText)
 	w.Put(c)
 }
 
@@ -708,21 +800,33 @@ func prefixesOf(p string) []string {
 
 // cfgSeq: the effective loader list as the option names say (set replaces, everything else appends), put into
 // the loader sequence of the property: priority loaders by Order, then ordered loaders by Order, then the rest as added
+// (`IN` / `CF` marks are skipped: the list after the last batch)
 func cfgSeq(opts []copt) (seq []*cloader, beforeAdd map[int]bool) {
 	var cur []*cloader
 	beforeAdd = map[int]bool{}
 	for _, o := range opts {
-		switch o.op {
-		case "SL", "SC":
-			cur = append([]*cloader{}, o.ls...)
-		default:
-			for _, l := range cur {
-				beforeAdd[l.id] = true
-			}
-			cur = append(cur, o.ls...)
-		}
+		cur = cfgApply(cur, o, beforeAdd)
 	}
-	// loader sequence: priority-ordered by Order, then ordered by Order, then the rest as added
+	return cfgOrder(cur), beforeAdd
+}
+
+// cfgApply: what one option does to the effective loader list, by its name
+func cfgApply(cur []*cloader, o copt, beforeAdd map[int]bool) []*cloader {
+	switch o.op {
+	case "IN", "CF":
+		return cur
+	case "SL", "SC":
+		return append([]*cloader{}, o.ls...)
+	}
+	for _, l := range cur {
+		beforeAdd[l.id] = true
+	}
+	return append(append([]*cloader{}, cur...), o.ls...)
+}
+
+// cfgOrder: the loader sequence of the property for a list in order of addition: priority-ordered by Order, then
+// ordered by Order, then the rest as added
+func cfgOrder(cur []*cloader) []*cloader {
 	var pr, or, rest []*cloader
 	for _, l := range cur {
 		switch l.kind {
@@ -742,14 +846,53 @@ func cfgSeq(opts []copt) (seq []*cloader, beforeAdd map[int]bool) {
 	}
 	sort.SliceStable(pr, func(i, j int) bool { return ord(pr[i]) < ord(pr[j]) })
 	sort.SliceStable(or, func(i, j int) bool { return ord(or[i]) < ord(or[j]) })
-	return append(append(pr, or...), rest...), beforeAdd
+	return append(append(pr, or...), rest...)
 }
 
-func cfgOracle(opts []copt, paths, got []string, obs, panText string) string {
-	seq, beforeAdd := cfgSeq(opts)
+// cfgOracle: the property after every Initialize.  gots[k] / obs[k] = what was read after the k-th Initialize.
+// `hist` = the documents the binder in use has been given so far, in the order of the property's loader sequences
+// (one sequence per Initialize): only used to recognise the known map-then-scalar rule, keys nobody ever supplied, and
+// keys only a removed source supplied; the expected VALUE of a key always comes from the current loader sequence.
+func cfgOracle(opts []copt, paths []string, gots [][]string, obs []string, panText string) string {
+	_, phases := cfgSplit(opts)
+	var cur []*cloader
+	beforeAdd := map[int]bool{}
+	var hist []*cfgDocView
+	var histLoader []*cloader
+	for k, ph := range phases {
+		for _, o := range ph {
+			if o.op == "SC" {
+				hist, histLoader = nil, nil // another Configure with its own new binder
+			}
+			cur = cfgApply(cur, o, beforeAdd)
+		}
+		if k >= len(obs) {
+			return fmt.Sprintf("FAIL config-error Initialize #%d was expected to be reached", k+1)
+		}
+		pre := ""
+		if k > 0 {
+			pre = "reinit-"
+		}
+		from := len(hist)
+		var res string
+		var end bool
+		hist, histLoader, res, end = cfgOraclePhase(cfgOrder(cur), beforeAdd, hist, histLoader, from, paths, gots[k], obs[k], panText, pre)
+		if res != "" {
+			if len(phases) > 1 {
+				res += fmt.Sprintf(" (after Initialize #%d of %d)", k+1, len(phases))
+			}
+			return res
+		}
+		if end {
+			return ""
+		}
+	}
+	return ""
+}
+
+func cfgOraclePhase(seq []*cloader, beforeAdd map[int]bool, views []*cfgDocView, viewLoader []*cloader, from int,
+	paths, got []string, obs, panText, pre string) ([]*cfgDocView, []*cloader, string, bool) {
 	wantErr, wantPanic := false, false
-	var views []*cfgDocView
-	var viewLoader []*cloader
 	for _, l := range seq {
 		if l.kind == "a" {
 			if len(l.pairs) == 0 {
@@ -777,25 +920,29 @@ func cfgOracle(opts []copt, paths, got []string, obs, panText string) string {
 			viewLoader = append(viewLoader, l)
 		}
 	}
+	fail := func(format string, args ...any) ([]*cfgDocView, []*cloader, string, bool) {
+		return views, viewLoader, "FAIL " + fmt.Sprintf(format, args...), true
+	}
 	switch {
 	case wantPanic:
 		if obs != "panic" {
-			return "FAIL config-args-no-panic expected the go-kid/properties panic"
+			return fail("config-args-no-panic expected the go-kid/properties panic")
 		}
-		return ""
+		return views, viewLoader, "", true
 	case obs == "panic":
-		return "FAIL config-panic " + panText
+		return fail("config-panic %s", panText)
 	case wantErr != (obs == "err"):
-		return fmt.Sprintf("FAIL config-error expected error=%v observed %s", wantErr, obs)
+		return fail("config-error expected error=%v observed %s", wantErr, obs)
 	case wantErr:
-		return ""
+		return views, viewLoader, "", true
 	}
 	gotAt := map[string]string{}
 	for i, p := range paths {
 		gotAt[strings.ToLower(p)] = got[i]
 	}
 	// every effective source is consulted (a repeated document carries the marker of its first copy)
-	for j, l := range viewLoader {
+	for j := from; j < len(views); j++ {
+		l := viewLoader[j]
 		m := fmt.Sprintf("m%d", l.id)
 		if views[j].leaf[m] != "s:"+hx.Hex(strconv.Itoa(l.id)) {
 			continue
@@ -805,20 +952,19 @@ func cfgOracle(opts []copt, paths, got []string, obs, panText string) string {
 			if beforeAdd[l.id] {
 				sig = "add-discards"
 			}
-			return fmt.Sprintf("FAIL %s loader #%d (%s) is in the effective list but its key %s shows %s", sig, l.id, l.kind, m, g)
+			return fail("%s%s loader #%d (%s) is in the effective list but its key %s shows %s", pre, sig, l.id, l.kind, m, g)
 		}
 	}
 	for i, rawp := range paths {
 		p := strings.ToLower(rawp)
 		if p == "" {
 			if !strings.HasPrefix(got[i], "map{") {
-				return "FAIL last-wins the whole configuration is not a map: " + got[i]
+				return fail("%slast-wins the whole configuration is not a map: %s", pre, got[i])
 			}
 			continue
 		}
-		pre := prefixesOf(p)
 		amb, mts := false, false
-		for _, q := range pre {
+		for _, q := range prefixesOf(p) {
 			mapSeen := false
 			for _, v := range views {
 				if v.amb[q] {
@@ -841,35 +987,38 @@ func cfgOracle(opts []copt, paths, got []string, obs, panText string) string {
 				last = j
 			}
 		}
-		sig := "last-wins"
+		sig := pre + "last-wins"
 		if mts {
 			sig = "map-then-scalar"
 		}
 		switch {
 		case last < 0:
 			if got[i] != "nil" {
-				return fmt.Sprintf("FAIL phantom-key path %s is in no document but shows %s", p, got[i])
+				return fail("%sphantom-key path %s is in no document but shows %s", pre, p, got[i])
 			}
+		case last < from:
+			// only a source that was configured at an earlier Initialize and has been removed since supplied this
+			// key: the property is about the configured sources, nothing is demanded
 		case views[last].isMap[p]:
 			if mts {
 				continue
 			}
 			if !strings.HasPrefix(got[i], "map{") {
-				return fmt.Sprintf("FAIL %s path %s: last document (loader #%d) has a map, observed %s", sig, p, viewLoader[last].id, got[i])
+				return fail("%s path %s: last document (loader #%d) has a map, observed %s", sig, p, viewLoader[last].id, got[i])
 			}
 			have := "," + strings.TrimSuffix(strings.TrimPrefix(got[i], "map{"), "}") + ","
 			for _, k := range views[last].keys[p] {
 				if !strings.Contains(have, ","+hx.Hex(k)+",") {
-					return fmt.Sprintf("FAIL %s path %s: key %s of the last document (loader #%d) is missing in %s", sig, p, k, viewLoader[last].id, got[i])
+					return fail("%s path %s: key %s of the last document (loader #%d) is missing in %s", sig, p, k, viewLoader[last].id, got[i])
 				}
 			}
 		default:
 			if want := views[last].leaf[p]; got[i] != want {
-				return fmt.Sprintf("FAIL %s path %s: last document (loader #%d) says %s, observed %s", sig, p, viewLoader[last].id, want, got[i])
+				return fail("%s path %s: last document (loader #%d) says %s, observed %s", sig, p, viewLoader[last].id, want, got[i])
 			}
 		}
 	}
-	return ""
+	return views, viewLoader, "", false
 }
 
 // ---------------------------------------------------------------- replay / corpus
@@ -943,6 +1092,55 @@ func cfgCorpus(w *hx.Writer) {
 			panic("bad corpus line: " + scn)
 		}
 		cfgRun(env, opts, paths, []string{"corpus", "many-loaders"}, w)
+	}
+	for _, scn := range cfgMultiCorpus() {
+		opts, paths, ok := cfgParse(scn)
+		if !ok {
+			panic("bad corpus line: " + scn)
+		}
+		cfgRun(env, opts, paths, []string{"corpus", "multi-init"}, w)
+	}
+}
+
+// cfgMultiCorpus: histories on one live Configure / App (several Initialize calls, sources added in between), and
+// the same file given to SetConfig more than once.
+func cfgMultiCorpus() []string {
+	h := hx.Hex
+	// base {a: {b: base, c: 8080}, k: true, m1: 1}   file {a: {b: file, d: true}, c: {d: data}, m2: 2}
+	// extra {a: {c: 9090}, ab: late, m3: 3}: the loader sequence is file, base, extra
+	base := fmt.Sprintf("M 3 %s M 2 %s P%s %s P%s %s P%s %s P31", h("a"), h("b"), h("base"), h("c"), h("8080"), h("k"), h("true"), h("m1"))
+	file := fmt.Sprintf("M 3 %s M 2 %s P%s %s P%s %s M 1 %s P%s %s P32", h("a"), h("b"), h("file"), h("d"), h("true"), h("c"), h("d"), h("data"), h("m2"))
+	extra := fmt.Sprintf("M 3 %s M 1 %s P%s %s P%s %s P33", h("a"), h("c"), h("9090"), h("ab"), h("late"), h("m3"))
+	q := " | " + strings.Join([]string{h("a.b"), h("a.c"), h("a.d"), h("c.d"), h("k"), h("ab"), h("m1"), h("m2"), h("m3"), h("a"), "-"}, " ")
+	one := func(k, v string) string { return fmt.Sprintf("M 1 %s P%s", h(k), h(v)) }
+	two := func(k, v, k2, v2 string) string { return fmt.Sprintf("M 2 %s P%s %s P%s", h(k), h(v), h(k2), h(v2)) }
+	return []string{
+		// a bare Configure: base, Initialize, then a file and another document, Initialize
+		"CF AL 1 r " + base + " IN CA 1 f " + file + " AL 1 r " + extra + q,
+		"CF AL 1 r " + base + " IN SF f " + file + " IN AL 1 r " + extra + " IN" + q,
+		// the same on a running App: Run(SetConfigLoader(base)), then SetConfig(file) + AddConfigLoader(extra), Initialize
+		"SL 1 r " + base + " IN SF f " + file + " AL 1 r " + extra + q,
+		// only the default ArgsLoader at Run; a file, then an ordered and a priority loader are given to the running App
+		"IN SF f " + file + q,
+		"AL 1 r " + base + " IN CA 1 o -1 " + file + " IN AL 1 p 3 " + extra + " IN" + q,
+		"CF SL 2 o 1 " + base + " r " + extra + " IN AL 1 o 0 " + file + q,
+		// all sources known before the first Initialize, two more Initialize calls change nothing
+		"AL 2 r " + base + " r " + extra + " SF f " + file + " IN IN" + q,
+		// a set-type call between two Initialize calls: the new list is loaded on top of what the binder holds
+		"SL 1 r " + two("a", "1", "b", "2") + " IN SL 1 r " + one("a", "9") + " | 61 62 -",
+		"CF SL 1 r " + two("a", "1", "b", "2") + " IN SL 0 IN SL 1 f " + one("a", "9") + " | 61 62 -",
+		// SetConfigure on the running App: another Configure, another binder
+		"AL 1 r " + two("a", "1", "b", "2") + " IN SC 1 r " + one("a", "9") + " IN CA 1 f " + one("c", "3") + " | 61 62 63 -",
+		// a loader that fails at the second Initialize; a map kept over a later scalar across two Initialize calls
+		"AL 1 r " + one("a", "1") + " IN AL 1 r X | 61",
+		"SL 1 r M 1 61 M 1 62 P31 IN SL 1 r M 1 61 P78 | 61 612e62 -",
+		// one loader object / one file path given again at a later Initialize
+		"AL 1 r " + one("a", "1") + " IN AL 1 r " + one("a", "9") + " IN AL 1 = 1 | 61",
+		"SF f " + two("a", "1", "b", "2") + " IN SF f " + two("a", "9", "c", "3") + " IN SF ~ 1 | 61 62 63 -",
+		// SetConfig with a file it has been given before: a, b, a (a is the last source) and a, SetConfigLoader(raw), a
+		"SF f " + two("a", "1", "b", "2") + " SF f " + two("a", "9", "c", "3") + " SF ~ 1 | 61 62 63 -",
+		"SF f " + two("a", "1", "b", "2") + " SL 1 r " + two("a", "9", "c", "3") + " SF ~ 1 | 61 62 63 -",
+		"SF f " + two("a", "1", "b", "2") + " SC 1 r " + two("a", "9", "c", "3") + " SF ~ 1 | 61 62 63 -",
 	}
 }
 
@@ -1446,8 +1644,8 @@ func cfgGenCase(r *hx.Rng) ([]copt, []string, []string) {
 		first := len(opts) == 0
 		var op string
 		switch k := r.Intn(20); {
-		case l.kind == "f" && k < 10 && l.ref != "=":
-			op = "SF"
+		case l.kind == "f" && l.ref != "=" && (k < 10 || (k < 18 && (l.ref == "~" || (rk >= 0 && loaders[rk].ref == "~" && i == ri)))):
+			op = "SF" // SetConfig with a path it was given before: mostly through SetConfig both times
 		case k < 4 || (first && k < 11):
 			op = "SL"
 		case k < 5:
@@ -1760,6 +1958,100 @@ func cfgGenMany(r *hx.Rng) ([]copt, []string, []string) {
 	return opts, paths, uniq
 }
 
+// cfgGenMulti: a history on one live App or bare Configure (tag `multi-init`): the source set and option sequence of
+// cfgGenCase, cut into batches by 1-3 `IN` marks (Initialize now); set-type options after the first Initialize mostly
+// become add-type ones (sources are ADDED to a running container).  Tag `late-front`: a priority / ordered / file
+// loader is added after an Initialize that already loaded a none-ordered one, i.e. the new source sorts in front of
+// sources loaded before.
+func cfgGenMulti(r *hx.Rng) ([]copt, []string, []string) {
+	base, paths, tags0 := cfgGenCase(r)
+	bare := r.P(1, 3)
+	gaps := len(base) + 1 // an `IN` may stand before the first option and after the last one
+	cut := map[int]bool{}
+	for g := 0; g < gaps; g++ {
+		if r.P(1, 3) && len(cut) < 3 {
+			cut[g] = true
+		}
+	}
+	if len(cut) == 0 {
+		g := r.Intn(len(base))
+		if r.P(1, 6) {
+			g = len(base)
+		}
+		cut[g] = true
+	}
+	var opts []copt
+	if bare {
+		opts = append(opts, copt{op: "CF"})
+	}
+	phase := 0
+	for g := 0; g < gaps; g++ {
+		if cut[g] {
+			opts = append(opts, copt{op: "IN"})
+			phase++
+		}
+		if g == len(base) {
+			break
+		}
+		o := base[g]
+		if bare && o.op == "SC" {
+			o.op = "SL"
+		}
+		if phase > 0 && (o.op == "SL" || o.op == "SC") && r.P(3, 4) {
+			o.op = map[string]string{"SL": "AL", "SC": "CA"}[o.op]
+		}
+		opts = append(opts, o)
+	}
+	// late-front?
+	_, phases := cfgSplit(opts)
+	var cur []*cloader
+	plainLoaded, lateFront := !bare, false // an App starts with the default ArgsLoader
+	for k, ph := range phases {
+		for _, o := range ph {
+			if o.op == "SL" || o.op == "SC" {
+				plainLoaded = false
+			} else if k > 0 && plainLoaded {
+				for _, l := range o.ls {
+					if l.kind == "f" || l.kind == "p" || l.kind == "o" {
+						lateFront = true
+					}
+				}
+			}
+			cur = cfgApply(cur, o, map[int]bool{})
+		}
+		for _, l := range cur {
+			if l.kind == "r" || l.kind == "a" {
+				plainLoaded = true
+			}
+		}
+	}
+	tags := []string{"multi-init", fmt.Sprintf("inits%d", len(phases))}
+	if bare {
+		tags = append(tags, "bare-configure")
+	}
+	if lateFront {
+		tags = append(tags, "late-front")
+	}
+	for _, t := range tags0 {
+		if t != "trivial" && !strings.HasPrefix(t, "op-") && !strings.HasPrefix(t, "opts") && t != "default-kept" {
+			tags = append(tags, t)
+		}
+	}
+	for _, o := range opts {
+		if o.op != "IN" && o.op != "CF" {
+			tags = append(tags, "op-"+o.op)
+		}
+	}
+	sort.Strings(tags)
+	var uniq []string
+	for j, t := range tags {
+		if j == 0 || t != tags[j-1] {
+			uniq = append(uniq, t)
+		}
+	}
+	return opts, paths, uniq
+}
+
 func cfgGen(rng *hx.Rng, n int, tier string, w *hx.Writer) {
 	for _, a := range os.Args {
 		if strings.HasPrefix(a, "--app.config") {
@@ -1774,6 +2066,8 @@ func cfgGen(rng *hx.Rng, n int, tier string, w *hx.Writer) {
 		var paths, tags []string
 		if i%25 == 12 {
 			opts, paths, tags = cfgGenMany(r)
+		} else if i%5 == 3 {
+			opts, paths, tags = cfgGenMulti(r)
 		} else {
 			opts, paths, tags = cfgGenCase(r)
 		}
